@@ -172,6 +172,23 @@ def run(rep, tier):
             rep.ok("C04.R5", fn, "start(): continuation() only when add_op_state(this) reported 'already granted'")
         else:
             rep.bad("C04.R5", fn, fn.loc, "start-continuation", "start() must run the continuation itself exactly when add_op_state(this) returned false (otherwise the access runs before it is granted, or twice)")
+    # the release chain is the reference count of the shared state: the access wrapper is meant to be its last owner
+    # (its destruction passes the grant on).  No other owning copy of this->state may be alive while the continuation
+    # runs - a local shared_ptr copy in start() keeps the group alive until start() returns, so a continuation that
+    # waits for a later access of the same mutex is never granted
+    for fn in starts + conts:
+        extra = []
+        for b, i, ev in fn.all_events():
+            if ev.get("k") in ("ctor", "decl") and "shared_ptr" in (str(ev.get("rec", "")) + str(ev.get("type", ""))):
+                src = ev.get("init") if ev.get("k") == "decl" else (ev.get("args") or [None])[0]
+                if src is not None and P(src) == "this->state" and not is_moved(src) and (ev.get("var") or ev.get("k") == "decl"):
+                    extra.append(ev)
+        if extra:
+            rep.bad("C04.R5", fn, loc_of(extra[0]), "extra-owner:" + fn.qname.rsplit("::", 1)[-1], "%s keeps an additional owning copy of the shared state (%s) while the "
+                    "continuation runs: the previous access group is not released when the wrapper dies but only when this function returns"
+                    % (fn.qname.rsplit("::", 1)[-1], extra[0].get("var")))
+        else:
+            rep.ok("C04.R5", fn, "%s holds no additional owning copy of the shared state" % fn.qname.rsplit("::", 1)[-1])
     C = Completions(D)
     for fn in conts:
         s = C.summary(fn)
